@@ -1,6 +1,8 @@
 //! `mc` — bounded-exhaustive model checking of toml-rs/toml.  One subcommand per property.
 mod c03;
 mod c14;
+mod c15;
+mod c20;
 mod c_docs;
 mod common;
 mod docu;
@@ -27,6 +29,8 @@ fn main() {
             "C01" | "C02" | "C09" => c_docs::replay(prop, path),
             "C03" => c03::replay(path),
             "C14" => c14::replay(path),
+            "C15" => c15::replay(path),
+            "C20" => c20::replay(path),
             _ => {
                 println!("MACHINERY-ERROR no replay for {}", prop);
                 2
@@ -51,6 +55,8 @@ fn main() {
         "C09" => c_docs::c09(tier),
         "C03" => c03::c03(tier),
         "C14" => c14::c14(tier),
+        "C15" => c15::c15(tier),
+        "C20" => c20::c20(tier),
         _ => {
             println!("MACHINERY-ERROR unknown property {}", prop);
             2
